@@ -115,7 +115,8 @@ def corpus_chunks():
            # keyword segments: the repaired defects and the seeded one
            ("x: {a: 1}", ["x[has_child(,)]", "x[!has_child(,)]"]), ("x: [[{a: 1}]]", ["x[0:1][0:1][0][max(a)]"]),
            ("x: {a: 1, b: 2}", ["x.*[parent()]", "x.**[parent()]", "x.*[parent(2)]"]),
-           ("[{k: 1}, null, {k: 0}]", ["[min(k)]", "[max(k)]", "[!min(k)]"]), ("[1, [2], 1]", ["[unique()]", "[distinct()]"]),
+           ("[{k: 1}, null, {k: 0}]", ["[min(k)]", "[max(k)]", "[!min(k)]"]),
+           ("[{a: null}]", ["/[name(a)](**)[!max(a)]", "[name()]", "[0].a[name()][parent(0)]"]), ("[1, [2], 1]", ["[unique()]", "[distinct()]"]),
            ("[1]", ["[-2]", "/-2", "[0:9]", "[-9:1]"]), ("[null]", ["[.=x]"]), ("{a: [x]}", ["a[.=~/(/]"]),
            ("{1: x, a: y}", ["[a:z]"]), ("[a]", ["[.={[1]:2}]"]), ("['{[1]: 2}']", ["[.=a]"])]
 
